@@ -251,6 +251,8 @@ func (f fetcher) FetchSourcePackage(ctx context.Context, sourceType string, u *u
 	}
 	if p.Commit != "" {
 		resp.PackageMeta = sourcebundle.PackageMetaWithGitMetadata(p.Commit, p.Msg)
+	} else if p.BlankMeta {
+		resp.PackageMeta = sourcebundle.PackageMetaWithGitMetadata("", "")
 	}
 	c.Result = "ok"
 	return resp, nil
